@@ -225,7 +225,7 @@ func (b *builder) runWorker(prop, tier string, j job, trace bool, tape bool) out
 	if tape {
 		args = append(args, "-tape")
 	}
-	ctx, cancel := context.WithTimeout(context.Background(), 180*time.Second)
+	ctx, cancel := context.WithTimeout(context.Background(), 600*time.Second)
 	defer cancel()
 	cmd := exec.CommandContext(ctx, bin, args...)
 	env := os.Environ()
@@ -247,7 +247,7 @@ func (b *builder) runWorker(prop, tier string, j job, trace bool, tape bool) out
 	err := cmd.Run()
 	o := outcome{job: j, wall: time.Since(t0), stderr: se.String()}
 	if ctx.Err() != nil {
-		o.err = "watchdog: worker exceeded 180s wall clock"
+		o.err = "watchdog: worker exceeded 600s wall clock"
 		return o
 	}
 	if err != nil {
